@@ -358,6 +358,8 @@ def shape(case):
     return '%s:%s:k%s%s%s%s' % (case['kind'], case.get('stream', '?'), nk, fun, nan, ':op' if case.get('via') == 'op' else '')
 
 def shrink(case):
+    if case.get('stream') == 'seed':
+        return          # corpus seeds are already minimal: replay them as written
     for side in ('x', 'y'):
         t = case[side]
         n = len(t[0][1]) if t else 0
